@@ -262,11 +262,12 @@ class SweepFamily(Family):
     chunk = 1
 
     def __init__(self, prop, name, n_quick, n_thorough, ex="asyncio", kinds=("scope", "native"),
-                 faults=True, stride_quick=1):
+                 faults=True, stride_quick=1, seam=None):
         self.prop = prop
         self.name = name
         self.n_quick, self.n_thorough = n_quick, n_thorough
         self.ex = ex
+        self.seam = seam
         self.kinds = kinds
         self.faults = faults
         self.stride_quick = stride_quick
@@ -349,6 +350,12 @@ class SweepFamily(Family):
         # all slices of a base must see the same base: derive it from the base index
         bseed = sub_seed(self._run_seed(seed, index), "base", bi)
         base = base_scenario(bseed, bi, self.ex)
+        if self.seam:
+            base["seam"] = self.seam
+            if self.ex == "threads" and base["ctype"] == "stun_h1":
+                # TLS inside TLS needs a real ssl.MemoryBIO handshake (TLSinTLSStream)
+                base = base_scenario(bseed, bi + 1, self.ex)
+                base["seam"] = self.seam
         dry = self.run_scenario(dict(base, record_sites="c0"))
         if sl == 0:
             u.add_result(dry, base, self.prop, nontrivial=False, keep_sample=(bi % 11 == 0))
@@ -388,10 +395,14 @@ class SweepFamily(Family):
 
 FAMS05 = [SweepFamily("C05", "sweep-async", 55, 550),
           SweepFamily("C05", "sweep-trio", 22, 220, ex="trio"),
-          SweepFamily("C05", "sweep-threads", 22, 220, ex="threads")]
+          SweepFamily("C05", "sweep-threads", 22, 220, ex="threads"),
+          SweepFamily("C05", "sweep-async-L2", 22, 220, seam="L2"),
+          SweepFamily("C05", "sweep-threads-L2", 11, 110, ex="threads", seam="L2")]
 FAMS06 = [SweepFamily("C06", "sweep-async", 55, 550),
           SweepFamily("C06", "sweep-trio", 22, 220, ex="trio"),
-          SweepFamily("C06", "sweep-threads", 22, 220, ex="threads")]
+          SweepFamily("C06", "sweep-threads", 22, 220, ex="threads"),
+          SweepFamily("C06", "sweep-async-L2", 22, 220, seam="L2"),
+          SweepFamily("C06", "sweep-threads-L2", 11, 110, ex="threads", seam="L2")]
 
 register("C05", {
     "level": "fault_enumeration",
